@@ -154,7 +154,8 @@ def cause(cond: str, decided: str) -> str:
             # whole tuple or a slice without stop: reachability.py substitutes stop=2, i.e. compares
             # (major, minor) where the run-time value has 5 (or 4) more elements
             return OPEN_ENDED
-        return f"version_info{sub}:decided-{decided}"
+        form = "index" if len(parts) == 1 else "closed-slice"
+        return f"version_info-{form}:decided-{decided}"
     return f"platform:decided-{decided}"
 
 
@@ -192,7 +193,7 @@ def run_item(item: dict) -> dict:
                         sample = {"cond": c, "target": list(ver), "platform": platform, "mypy": d, "eval": want}
                     continue
                 st["wrong"] += 1
-                bad = next((e, v) for e, v in zip(envs, rt) if v is not want)
+                bad = next(((e, v) for e, v in zip(envs, rt) if v is not want), (envs[0], rt[0]))
                 viol.append({
                     "signature": f"reach:{cause(c, d)}",
                     "what": f"target {ver[0]}.{ver[1]}/{platform} ({'native' if native else 'fastparse'}): `{c}` decided {d} by "
